@@ -25,6 +25,23 @@ home = os.getcwd()
 for job in jobs:
     buf = io.StringIO()
     os.chdir(job.get("cwd") or home)
+    if "main" in job:
+        # the command line entry point with the mapping pipeline replaced by a recorder: which species, in which
+        # order (= alignment order = share of the random stream), reach the pipeline under this hash seed
+        calls = []
+        orig, old_argv = _cli.auto_map, sys.argv
+        _cli.auto_map = lambda ref, species, scale=0.5, outfile=None: calls.append([list(s) for s in species])
+        sys.argv = ["gaddlemaps"] + list(job["main"])
+        try:
+            with contextlib.redirect_stdout(buf), warnings.catch_warnings():
+                warnings.simplefilter("ignore")
+                _cli.main()
+            out.append({"ok": True, "calls": calls})
+        except BaseException as exc:      # noqa: BLE001
+            out.append({"ok": False, "error": "%s: %s" % (type(exc).__name__, str(exc)[:200])})
+        finally:
+            _cli.auto_map, sys.argv = orig, old_argv
+        continue
     try:
         with contextlib.redirect_stdout(buf), warnings.catch_warnings():
             warnings.simplefilter("ignore")
